@@ -120,7 +120,7 @@ def run(ctx):
         if not ctx.mine(k):
             continue
         msm = refmodel.is_msm_identity(identity)
-        reps = (300 if msm else 30) if ctx.quick else (12000 if msm else 800)
+        reps = (600 if msm else 60) if ctx.quick else (12000 if msm else 800)
         for j in range(reps):
             seedtag = rng.getrandbits(40)
             r2 = random.Random(seedtag)
